@@ -30,8 +30,16 @@ where
     let w: Vec<i64> = c["w"].as_array().unwrap().iter().map(|x| x.as_i64().unwrap()).collect();
     let total = c["total"].as_i64().unwrap() as f64;
     let tname = std::any::type_name::<T>();
-    let weights: Vec<T> = w.iter().map(|x| T::from(*x as f64 * scale).unwrap()).collect();
     let is32 = std::mem::size_of::<T>() == 4;
+    // scale < 0: "nearly normalised" input -- the weights sum to one up to a relative error far above rounding
+    // (|scale| = 1: slightly above one, |scale| = 2: slightly below) and have to be normalised like any other
+    let scale = if scale < 0.0 {
+        let delta = if is32 { 2e-4 } else { 3e-9 };
+        (if scale == -1.0 { 1.0 + delta } else { 1.0 - delta }) / total
+    } else {
+        scale
+    };
+    let weights: Vec<T> = w.iter().map(|x| T::from(*x as f64 * scale).unwrap()).collect();
     let margin = if is32 { 2f64.powi(-14) } else { 2f64.powi(-20) };
     let push = |acc: &mut Acc, what: &str, r: f64, got: Value, allowed: &Vec<usize>| {
         if acc.bad.len() < 30 {
@@ -113,7 +121,7 @@ pub fn replay(args: &[String]) {
     let cases = read_ndjson(&args[0]);
     let mut acc = Acc { evals: 0, strict: 0, exact: 0, bad: vec![] };
     for c in &cases {
-        for scale in [1.0, 0.37, 1000.0] {
+        for scale in [1.0, 0.37, 1000.0, -1.0, -2.0] {
             one::<f64>(c, scale, &mut acc);
             one::<f32>(c, scale, &mut acc);
         }
